@@ -1,3 +1,194 @@
 import YgmVerif.Lemmas.DSet
+/-!
+# C17 — disjoint_set connectivity equals the union graph; merges are reported once
+
+Theorems about `YgmVerif.DSet` (Model/DSet.lean: the message system of
+`async_union` / `async_union_and_execute`, handler bodies transcribed from
+detail/disjoint_set_impl.hpp).  `Reach s` = `s` is reachable from the empty container by
+any number of `issue` (a rank calls async_union[_and_execute]), `deliver i` (ANY in-flight
+message is delivered next) and `compress x` (all_find / all_compress write-back) steps, in
+any order: all union multigraphs, all delivery orders, all epochs.
+
+Everything is derived from one inductive invariant (`InvP`, Lemmas/DSet.lean) whose
+per-message clauses are `MsgOk`:
+* `walk t c op oi ork`: `c`, `oi` are `t`, `op` themselves or non-roots strictly below them in
+  the `(rank, item)` order; `ork ≤ rank op`; both pairs share a tree; `t` sits in the tree of one
+  endpoint of the union the walk belongs to and `op` in the tree of the other;
+* `setp x z`: `x` is a non-root, `(rank x, x) < (rank z, z)`, `x` and `z` share a tree;
+* `resolve p x k`: `x` is a non-root of rank `k` with `(k, x) < (rank p, p)`.
+-/
 namespace YgmVerif.DSet
+
+/-! ## the order `(rank, item)`, acyclicity, termination -/
+
+/-- in every reachable state every non-root is strictly below its parent in the order
+`(rank, item)` (the code's tie-break: equal ranks are ordered by `my_item < other_parent`) -/
+theorem lex_increasing {s : State} (h : Reach s) (x : Item) (hx : parent s x ≠ x) :
+    rank s x < rank s (parent s x) ∨ (rank s x = rank s (parent s x) ∧ x < parent s x) :=
+  h.inv.a.lex x hx
+
+/-- the per-message invariants hold for every message in flight -/
+theorem messages_ok {s : State} (h : Reach s) (m : Msg) (hm : m ∈ s.msgs) : MsgOk s m :=
+  h.inv.msgs m (by simpa using hm)
+
+/-- the two `ASSERT_RELEASE`s of `resolve_merge_lambda` never fire -/
+theorem no_abort {s : State} (h : Reach s) : s.aborted = false := h.inv.noabort
+
+/-- when a `resolve` message is delivered, `my_rank >= merging_rank` holds (the assertion itself) -/
+theorem resolve_assert {s : State} (h : Reach s) {p x : Item} {k : Int} (hm : Msg.resolve p x k ∈ s.msgs) :
+    k ≤ rank s p := by
+  obtain ⟨_, h2, h3, _⟩ := messages_ok h _ hm
+  have := lexLt_rank_le h3
+  omega
+
+/-- the parent structure is acyclic: mutual ancestors are equal -/
+theorem acyclic {s : State} (h : Reach s) {x y : Item} (h1 : Anc s x y) (h2 : Anc s y x) : x = y :=
+  anc_antisymm h.inv.a h1 h2
+
+/-- every lookup terminates: following parents from `x` reaches a root after at most
+`above s x` steps, the number of present items above `x` in the `(rank, item)` order -/
+theorem find_terminates {s : State} (h : Reach s) (x : Item) (n : Nat) (hn : above s x < n) :
+    isRoot s (find s n x) ∧ Anc s x (find s n x) :=
+  ⟨find_isRoot h.inv.a n x hn, find_anc s n x⟩
+
+/-- each step up strictly decreases the measure -/
+theorem measure_decreases {s : State} (h : Reach s) {x : Item} (hx : ¬ isRoot s x) :
+    above s (parent s x) < above s x := above_parent_lt h.inv.a hx
+
+/-- `root` (= `find` with fuel `size + 1`) is a root above `x` … -/
+theorem root_isRoot {s : State} (h : Reach s) (x : Item) : isRoot s (root s x) ∧ Anc s x (root s x) :=
+  ⟨root_isRoot' h.inv.a x, root_anc s x⟩
+
+/-- … and the only one -/
+theorem root_unique {s : State} (h : Reach s) {x r : Item} (ha : Anc s x r) (hr : isRoot s r) : r = root s x :=
+  root_unique' h.inv.a ha hr
+
+/-- equal representatives ⇔ common ancestor -/
+theorem sameTree_iff_root_eq {s : State} (h : Reach s) (x y : Item) : sameTree s x y ↔ root s x = root s y :=
+  sameTree_iff_root_eq' h.inv.a x y
+
+/-! ## connectivity -/
+
+/-- sound: items of one tree are connected by the unions issued so far (at every moment,
+not only at barriers) -/
+theorem sound {s : State} (h : Reach s) {x y : Item} (hxy : sameTree s x y) : Conn s.issued x y :=
+  conn_of_sameTree h.inv.sound hxy
+
+/-- every issued union is either already reflected in the trees or still has its walk in flight -/
+theorem union_pending_or_done {s : State} (h : Reach s) {a b : Item} (hab : (a, b) ∈ s.issued) :
+    sameTree s a b ∨ ∃ ex t c op oi ork, Msg.walk ex t c op oi ork a b ∈ s.msgs := by
+  simpa using h.inv.done a b hab
+
+/-- complete: at quiescence (no message in flight, i.e. after a barrier) items connected by the
+issued unions are in one tree -/
+theorem complete {s : State} (h : Reach s) (hq : s.msgs = []) {x y : Item} (hxy : Conn s.issued x y) :
+    sameTree s x y := by
+  refine Conn.rec_equiv (sameTree s) (sameTree.refl s) (fun _ _ h => h.symm) (fun _ _ _ h1 h2 => h1.trans h2) ?_ hxy
+  intro a b hab
+  rcases union_pending_or_done h hab with h1 | ⟨_, _, _, _, _, _, hw⟩
+  · exact h1
+  · rw [hq] at hw; cases hw
+
+/-- after a barrier: equal representatives ⇔ connected by the unions issued so far -/
+theorem connectivity {s : State} (h : Reach s) (hq : s.msgs = []) (x y : Item) :
+    root s x = root s y ↔ Conn s.issued x y :=
+  (sameTree_iff_root_eq h x y).symm.trans ⟨sound h, complete h hq⟩
+
+/-- path splitting, the resolve write-back and all_find's compression never split a set: the
+re-parenting they perform (a non-root `x` moved below a `z` of its own tree with
+`(rank x, x) < (rank z, z)`) keeps every two items that shared a tree in a common tree -/
+theorem no_split {s : State} (h : Reach s) {x z : Item} (hx : ¬ isRoot s x)
+    (hlt : lexLt s x z) (hst : sameTree s x z) {u v : Item} (huv : sameTree s u v) :
+    sameTree (reparent s x z) u v :=
+  sameTree.reparent_nonroot h.inv.a.lex hx hlt hst huv
+
+/-! ## counting -/
+
+/-- #root merges + num_sets = size, in every reachable state -/
+theorem merges_count {s : State} (h : Reach s) : s.mergeLog.length + numSets s = size s := h.inv.count
+
+/-- the callback ran exactly once per root merge performed by an `_and_execute` walk -/
+theorem callbacks_eq_exec_merges {s : State} (h : Reach s) :
+    s.cbs.length = (s.mergeLog.filter (·.1)).length := h.inv.cbs_eq
+
+/-- if only `async_union_and_execute` was used: #callbacks = #items − #sets -/
+theorem callbacks_count {s : State} (h : Reach s) (hp : s.plainIssued = 0) :
+    s.cbs.length + numSets s = size s := by
+  have h1 := h.inv.cbs_eq
+  have h2 : s.mergeLog.filter (·.1) = s.mergeLog := by
+    apply List.filter_eq_self.2
+    intro e he; exact (h.inv.exec hp).2 e he
+  rw [h2] at h1
+  rw [h1]; exact h.inv.count
+
+/-- every callback edge joined two distinct trees: it connects items that the older callback
+edges do not connect — the callback edges are a forest … -/
+theorem callbacks_forest {s : State} (h : Reach s) : Forest s.cbs := h.inv.forest
+
+/-- … of edges that were issued as unions, each inside one tree -/
+theorem callbacks_issued {s : State} (h : Reach s) (e : Item × Item) (he : e ∈ s.cbs) :
+    e ∈ s.issued ∧ sameTree s e.1 e.2 := ⟨h.inv.cbs_issued e he, h.inv.cbs_tree e he⟩
+
+/-- … and, when only `async_union_and_execute` was used, spanning: after a barrier the callback
+edges connect exactly what the issued unions connect -/
+theorem callbacks_spanning {s : State} (h : Reach s) (hp : s.plainIssued = 0) (hq : s.msgs = []) (x y : Item) :
+    Conn s.cbs x y ↔ Conn s.issued x y :=
+  ⟨fun c => Conn.mono (fun e he => h.inv.cbs_issued e he) c,
+   fun c => conn_of_sameTree (h.inv.span hp) (complete h hq c)⟩
+
+/-! ## num_sets, representatives -/
+
+/-- `num_sets()` counts the items that are their own representative -/
+theorem num_sets_eq_roots {s : State} (h : Reach s) :
+    numSets s = (s.dom.filter (fun x => root s x = x)).length := by
+  unfold numSets
+  congr 1
+  apply List.filter_congr
+  intro x _
+  have hiff : parent s x = x ↔ root s x = x := by
+    constructor
+    · intro hr; exact (root_unique h (Anc.refl x) hr).symm
+    · intro hr; have := (root_isRoot h x).1; rw [hr] at this; exact this
+  by_cases h1 : parent s x = x
+  · simp [h1, hiff.1 h1]
+  · have h2 : ¬ root s x = x := fun h' => h1 (hiff.2 h')
+    simp [h1, h2]
+
+/-- the representative of a present item is a present item of the same set, and is its own
+representative -/
+theorem representative_is_member {s : State} (h : Reach s) {x : Item} (hx : x ∈ s.dom) :
+    root s x ∈ s.dom ∧ sameTree s x (root s x) ∧ root s (root s x) = root s x :=
+  ⟨anc_mem_dom h.inv.a (root_anc s x) hx, sameTree.of_anc (root_anc s x),
+   (root_unique h (Anc.refl _) (root_isRoot h x).1).symm⟩
+
+/-- items never visited are singletons, and nobody points at … them wrongly: an absent item
+reads as `(0, self)` -/
+theorem absent_is_singleton {s : State} (h : Reach s) {x : Item} (hx : x ∉ s.dom) : rank s x = 0 ∧ parent s x = x := by
+  have := h.inv.a.nondom x hx
+  unfold rank parent; rw [this]; exact ⟨rfl, rfl⟩
+
+/-! ## non-vacuity: concrete reachable states -/
+
+/-- `async_union(1,2)` delivered to quiescence (4 messages): 1 hangs below 2, rank of 2 bumped -/
+def ex1 : State := deliver (deliver (deliver (deliver (issue init false 1 2) 0) 0) 0) 0
+
+theorem ex1_reach : Reach ex1 :=
+  .tail (.tail (.tail (.tail (.tail (.refl _) (.issue _ false 1 2)) (.deliver _ 0)) (.deliver _ 0)) (.deliver _ 0)) (.deliver _ 0)
+
+example : ex1.msgs = [] ∧ parent ex1 1 = 2 ∧ rank ex1 2 = 1 ∧ numSets ex1 = 1 ∧ size ex1 = 2 ∧ ex1.mergeLog.length = 1 := by decide
+
+/-- two `_and_execute` unions of the same edge from two ranks, delivered newest-first: one callback -/
+def ex2 : State :=
+  let s := issue (issue init true 3 5) true 5 3
+  deliver (deliver (deliver (deliver (deliver (deliver s 1) 1) 1) 0) 0) 0
+
+example : ex2.msgs = [] ∧ ex2.cbs.length = 1 ∧ numSets ex2 = 1 ∧ size ex2 = 2 ∧ ex2.plainIssued = 0 ∧ root ex2 3 = root ex2 5 := by decide
+
+/-- a state with messages in flight satisfies the hypotheses of `messages_ok` non-trivially -/
+example : (deliver (issue init false 1 2) 0).msgs = [Msg.walk false 2 2 1 1 0 1 2] := by decide
+
+/-- `Forest` is not vacuous: it rejects a cycle -/
+example : ¬ Forest [(1, 2), (2, 1)] := by
+  intro h; exact h.1 (Conn.symm (Conn.edge List.mem_cons_self))
+
 end YgmVerif.DSet
